@@ -23,8 +23,10 @@ deriving DecidableEq
 
 /-- `Shape ph tr`: the trace (newest first) is a sequence of complete invocation blocks — either
 `[ret id false]` alone, or effects of one `id` followed by its one state change, the listener events
-of that change and `ret id true` — followed, when `ph ≠ idle`, by what the invocation still in
-progress has done so far. -/
+of that change and `ret id true`, or such a block cut short by `cancelled id` (the caller of the lock
+holder was cancelled: nothing of that invocation follows) — followed, when `ph ≠ idle`, by what the
+invocation still in progress has done so far. A `cancelled id` of a caller that was still *waiting* for
+the lock may stand anywhere: it belongs to no block, that invocation never ran. -/
 inductive Shape : Phase → List Item → Prop
   | nil : Shape .idle []
   | refused {tr} (id : Nat) : Shape .idle tr → Shape .idle (.ret id false :: tr)
@@ -35,12 +37,16 @@ inductive Shape : Phase → List Item → Prop
   | event {tr} (id : Nat) (li : Nat) (a b : St) :
       Shape (.notified id) tr → Shape (.notified id) (.event id li a b :: tr)
   | done {tr} (id : Nat) : Shape (.notified id) tr → Shape .idle (.ret id true :: tr)
+  | waiterCancelled {ph tr} (id : Nat) : Shape ph tr → Shape ph (.cancelled id :: tr)
+  | cancelledRunning {tr} (id : Nat) : Shape (.running id) tr → Shape .idle (.cancelled id :: tr)
+  | cancelledNotified {tr} (id : Nat) : Shape (.notified id) tr → Shape .idle (.cancelled id :: tr)
 
 /-- In a well-shaped trace a refusal is never directly preceded by an effect or an event: the
-item before a `ret id false` (if any) is the return of an earlier invocation. -/
+item before a `ret id false` (if any) is the return — or the cancellation — of another invocation. -/
 theorem Shape.refusal_isolated {ph : Phase} {tr : List Item} (h : Shape ph tr) :
     ∀ pre id rest, tr = pre ++ .ret id false :: rest →
-      rest = [] ∨ ∃ id' ok rest', rest = .ret id' ok :: rest' := by
+      rest = [] ∨ (∃ id' ok rest', rest = .ret id' ok :: rest') ∨
+        (∃ id' rest', rest = .cancelled id' :: rest') := by
   induction h with
   | nil => intro pre id rest h; cases pre <;> simp at h
   | refused id' h ih =>
@@ -51,8 +57,11 @@ theorem Shape.refusal_isolated {ph : Phase} {tr : List Item} (h : Shape ph tr) :
       obtain ⟨_, rfl⟩ := heq
       cases h with
       | nil => exact Or.inl rfl
-      | refused i _ => exact Or.inr ⟨i, false, _, rfl⟩
-      | done i _ => exact Or.inr ⟨i, true, _, rfl⟩
+      | refused i _ => exact Or.inr (Or.inl ⟨i, false, _, rfl⟩)
+      | done i _ => exact Or.inr (Or.inl ⟨i, true, _, rfl⟩)
+      | waiterCancelled i _ => exact Or.inr (Or.inr ⟨i, _, rfl⟩)
+      | cancelledRunning i _ => exact Or.inr (Or.inr ⟨i, _, rfl⟩)
+      | cancelledNotified i _ => exact Or.inr (Or.inr ⟨i, _, rfl⟩)
     | cons p ps =>
       simp only [List.cons_append, List.cons.injEq] at heq
       exact ih ps id rest heq.2
@@ -85,6 +94,27 @@ theorem Shape.refusal_isolated {ph : Phase} {tr : List Item} (h : Shape ph tr) :
     | cons p ps =>
       simp only [List.cons_append, List.cons.injEq] at heq
       exact ih ps id rest heq.2
+  | waiterCancelled id' h ih =>
+    intro pre id rest heq
+    cases pre with
+    | nil => simp at heq
+    | cons p ps =>
+      simp only [List.cons_append, List.cons.injEq] at heq
+      exact ih ps id rest heq.2
+  | cancelledRunning id' h ih =>
+    intro pre id rest heq
+    cases pre with
+    | nil => simp at heq
+    | cons p ps =>
+      simp only [List.cons_append, List.cons.injEq] at heq
+      exact ih ps id rest heq.2
+  | cancelledNotified id' h ih =>
+    intro pre id rest heq
+    cases pre with
+    | nil => simp at heq
+    | cons p ps =>
+      simp only [List.cons_append, List.cons.injEq] at heq
+      exact ih ps id rest heq.2
 
 /-! ### What the listeners are told, newest first -/
 
@@ -97,11 +127,13 @@ def toldNF (li : Nat) (tr : List Item) : List (St × St) := tr.filterMap (Item.t
 @[simp] theorem transNF_nil : transNF [] = [] := rfl
 @[simp] theorem transNF_eff (id e tr) : transNF (.eff id e :: tr) = transNF tr := rfl
 @[simp] theorem transNF_ret (id ok tr) : transNF (.ret id ok :: tr) = transNF tr := rfl
+@[simp] theorem transNF_cancelled (id tr) : transNF (.cancelled id :: tr) = transNF tr := rfl
 @[simp] theorem transNF_event (id l a b tr) : transNF (.event id l a b :: tr) = transNF tr := rfl
 @[simp] theorem transNF_trans (id a b tr) : transNF (.trans id a b :: tr) = (a, b) :: transNF tr := rfl
 @[simp] theorem toldNF_nil (li) : toldNF li [] = [] := rfl
 @[simp] theorem toldNF_eff (li id e tr) : toldNF li (.eff id e :: tr) = toldNF li tr := rfl
 @[simp] theorem toldNF_ret (li id ok tr) : toldNF li (.ret id ok :: tr) = toldNF li tr := rfl
+@[simp] theorem toldNF_cancelled (li id tr) : toldNF li (.cancelled id :: tr) = toldNF li tr := rfl
 @[simp] theorem toldNF_trans (li id a b tr) : toldNF li (.trans id a b :: tr) = toldNF li tr := rfl
 theorem toldNF_event_same (li id a b tr) :
     toldNF li (.event id li a b :: tr) = (a, b) :: toldNF li tr := by
@@ -151,6 +183,22 @@ def EventsOk (d : Dir) (tr : List Item) : Prop :=
 def TransOk (d : Dir) (tr : List Item) : Prop :=
   ∀ id a b, Item.trans id a b ∈ tr → edge d a b = true
 
+theorem EventsOk.cons {d : Dir} {tr : List Item} {it : Item} (h : EventsOk d tr)
+    (hit : ∀ id li a b, it = .event id li a b → edge d a b = true) : EventsOk d (it :: tr) := by
+  intro id li a b hmem
+  simp only [List.mem_cons] at hmem
+  rcases hmem with h' | h'
+  · exact hit id li a b h'.symm
+  · exact h id li a b h'
+
+theorem TransOk.cons {d : Dir} {tr : List Item} {it : Item} (h : TransOk d tr)
+    (hit : ∀ id a b, it = .trans id a b → edge d a b = true) : TransOk d (it :: tr) := by
+  intro id a b hmem
+  simp only [List.mem_cons] at hmem
+  rcases hmem with h' | h'
+  · exact hit id a b h'.symm
+  · exact h id a b h'
+
 def phaseOf : Option Pending → Phase
   | none => .idle
   | some p => if p.notified then .notified p.call.id else .running p.call.id
@@ -158,138 +206,195 @@ def phaseOf : Option Pending → Phase
 /-- Invariant (`s0` = the state the run started in): events and state changes are edges; the trace is
 well shaped, with the suspended lock holder (if any) as the invocation in progress; the transition a
 holder has not yet made is an edge **from the current state**; the state changes lead from `s0` to
-the current state; while no listener loop is in progress every listener has been told exactly the
-state changes; while the lock holder is suspended inside listener `pos`, the listeners up to `pos`
-have been told all of them and the later ones all but the newest, which is `(old, current state)`. -/
+the current state; every listener has been told a subsequence of the state changes, the first one all of
+them; and **as long as no cancellation has cut a listener loop short** (`cuts = 0`): while no listener
+loop is in progress every listener has been told exactly the state changes; while the lock holder is
+suspended inside listener `pos`, the listeners up to `pos` have been told all of them and the later ones
+all but the newest, which is `(old, current state)`. -/
 structure Inv (cfg : Cfg) (s0 : St) (x : XState) : Prop where
   events : EventsOk cfg.dir x.trace
   transOk : TransOk cfg.dir x.trace
   shape : Shape (phaseOf x.holder) x.trace
   pending : ∀ p, x.holder = some p → p.notified = false → edge cfg.dir x.cur p.target = true
   chain : ChainNF s0 x.cur (transNF x.trace)
-  quiet : (∀ p, x.holder = some p → p.notified = false) →
+  quiet : x.cuts = 0 → (∀ p, x.holder = some p → p.notified = false) →
     ∀ li, li < cfg.listeners.length → toldNF li x.trace = transNF x.trace
   telling : ∀ p, x.holder = some p → p.notified = true →
     p.pos < cfg.listeners.length ∧ edge cfg.dir p.old x.cur = true ∧
-    (∀ li, li ≤ p.pos → toldNF li x.trace = transNF x.trace) ∧
-    (∀ li, p.pos < li → li < cfg.listeners.length →
-      transNF x.trace = (p.old, x.cur) :: toldNF li x.trace)
+    (∃ rest, transNF x.trace = (p.old, x.cur) :: rest ∧
+      ∀ li, p.pos < li → (toldNF li x.trace).Sublist rest) ∧
+    (x.cuts = 0 →
+      (∀ li, li ≤ p.pos → toldNF li x.trace = transNF x.trace) ∧
+      (∀ li, p.pos < li → li < cfg.listeners.length →
+        transNF x.trace = (p.old, x.cur) :: toldNF li x.trace))
+  sub : ∀ li, (toldNF li x.trace).Sublist (transNF x.trace)
+  first : 0 < cfg.listeners.length → toldNF 0 x.trace = transNF x.trace
+  abandonedRunning : ∀ p, x.holder = some p → p.abandoned = true → p.notified = false
+
+theorem Inv.congr {cfg : Cfg} {s0 : St} {x y : XState} (hinv : Inv cfg s0 x) (h1 : y.cur = x.cur)
+    (h2 : y.holder = x.holder) (h3 : y.trace = x.trace) (h4 : y.cuts = x.cuts) : Inv cfg s0 y := by
+  obtain ⟨a, b, c, d, e, f, g, h, i, j⟩ := hinv
+  exact ⟨h3 ▸ a, h3 ▸ b, h2 ▸ h3 ▸ c, h1 ▸ h2 ▸ d, h1 ▸ h3 ▸ e, h2 ▸ h3 ▸ h4 ▸ f,
+    h1 ▸ h2 ▸ h3 ▸ h4 ▸ g, h3 ▸ h, h3 ▸ i, h2 ▸ j⟩
+
+/-- pushing the cancellation of a caller that never ran changes nothing the invariant speaks of -/
+theorem Inv.push_cancelled {cfg : Cfg} {s0 : St} {x y : XState} (hinv : Inv cfg s0 x) (id : Nat)
+    (h1 : y.cur = x.cur) (h2 : y.holder = x.holder) (h3 : y.trace = .cancelled id :: x.trace)
+    (h4 : y.cuts = x.cuts) : Inv cfg s0 y := by
+  refine ⟨?_, ?_, ?_, ?_, ?_, ?_, ?_, ?_, ?_, ?_⟩
+  · rw [h3]; exact hinv.events.cons (by intro _ _ _ _ h; cases h)
+  · rw [h3]; exact hinv.transOk.cons (by intro _ _ _ h; cases h)
+  · rw [h2, h3]; exact Shape.waiterCancelled id hinv.shape
+  · rw [h1, h2]; exact hinv.pending
+  · rw [h1, h3]; simpa using hinv.chain
+  · rw [h2, h3, h4]; simpa using hinv.quiet
+  · rw [h1, h2, h3, h4]; simpa using hinv.telling
+  · rw [h3]; simpa using hinv.sub
+  · rw [h3]; simpa using hinv.first
+  · rw [h2]; exact hinv.abandonedRunning
 
 theorem notifyFrom_inv (cfg : Cfg) (s0 : St) (c : Call) (old : St) :
     ∀ (gs : List Bool) (pos : Nat) (x : XState), pos + gs.length = cfg.listeners.length →
       EventsOk cfg.dir x.trace → TransOk cfg.dir x.trace → Shape (.notified c.id) x.trace →
       edge cfg.dir old x.cur = true → ChainNF s0 x.cur (transNF x.trace) →
-      (∀ li, li < pos → toldNF li x.trace = transNF x.trace) →
-      (∀ li, pos ≤ li → li < cfg.listeners.length →
-        transNF x.trace = (old, x.cur) :: toldNF li x.trace) →
+      (∃ rest, transNF x.trace = (old, x.cur) :: rest ∧
+        ∀ li, pos ≤ li → (toldNF li x.trace).Sublist rest) →
+      (∀ li, (toldNF li x.trace).Sublist (transNF x.trace)) →
+      (0 < pos → toldNF 0 x.trace = transNF x.trace) →
+      (pos = 0 → 0 < cfg.listeners.length → transNF x.trace = (old, x.cur) :: toldNF 0 x.trace) →
+      (x.cuts = 0 → (∀ li, li < pos → toldNF li x.trace = transNF x.trace) ∧
+        (∀ li, pos ≤ li → li < cfg.listeners.length →
+          transNF x.trace = (old, x.cur) :: toldNF li x.trace)) →
       Inv cfg s0 (notifyFrom c old gs pos x) := by
   intro gs
   induction gs with
   | nil =>
-    intro pos x hlen hev htr hsh hedge hch hlt hge
+    intro pos x hlen hev htr hsh hedge hch _ hsub hfirst _ hq
     simp only [List.length_nil, Nat.add_zero] at hlen
     unfold notifyFrom
-    refine ⟨?_, ?_, ?_, ?_, ?_, ?_, ?_⟩
-    · intro id li a b hmem
-      simp only [List.mem_cons] at hmem
-      rcases hmem with h | h
-      · cases h
-      · exact hev id li a b h
-    · intro id a b hmem
-      simp only [List.mem_cons] at hmem
-      rcases hmem with h | h
-      · cases h
-      · exact htr id a b h
+    refine ⟨?_, ?_, ?_, ?_, ?_, ?_, ?_, ?_, ?_, ?_⟩
+    · exact hev.cons (by intro _ _ _ _ h; cases h)
+    · exact htr.cons (by intro _ _ _ h; cases h)
     · simpa [phaseOf] using Shape.done c.id hsh
     · intro p hp; simp at hp
     · simpa using hch
-    · intro _ li hli
-      simpa using hlt li (by omega)
+    · intro hc _ li hli
+      simpa using (hq hc).1 li (by omega)
+    · intro p hp; simp at hp
+    · intro li; simpa using hsub li
+    · intro h0; simpa using hfirst (by omega)
     · intro p hp; simp at hp
   | cons g gs ih =>
-    intro pos x hlen hev htr hsh hedge hch hlt hge
+    intro pos x hlen hev htr hsh hedge hch hrest hsub hfirst hfirst0 hq
     simp only [List.length_cons] at hlen
-    have hev' : EventsOk cfg.dir (.event c.id pos old x.cur :: x.trace) := by
-      intro id li a b hmem
-      simp only [List.mem_cons] at hmem
-      rcases hmem with h | h
-      · cases h; exact hedge
-      · exact hev id li a b h
-    have htr' : TransOk cfg.dir (.event c.id pos old x.cur :: x.trace) := by
-      intro id a b hmem
-      simp only [List.mem_cons] at hmem
-      rcases hmem with h | h
-      · cases h
-      · exact htr id a b h
-    have hle : ∀ li, li ≤ pos →
-        toldNF li (.event c.id pos old x.cur :: x.trace) = transNF (.event c.id pos old x.cur :: x.trace) := by
+    have hev' : EventsOk cfg.dir (.event c.id pos old x.cur :: x.trace) :=
+      hev.cons (by intro _ _ _ _ h; cases h; exact hedge)
+    have htr' : TransOk cfg.dir (.event c.id pos old x.cur :: x.trace) :=
+      htr.cons (by intro _ _ _ h; cases h)
+    obtain ⟨rest, hrest1, hrest2⟩ := hrest
+    have hrest' : ∃ rest, transNF (.event c.id pos old x.cur :: x.trace) = (old, x.cur) :: rest ∧
+        ∀ li, pos + 1 ≤ li → (toldNF li (.event c.id pos old x.cur :: x.trace)).Sublist rest := by
+      refine ⟨rest, by rw [transNF_event]; exact hrest1, ?_⟩
       intro li hli
-      rcases Nat.lt_or_eq_of_le hli with h | h
-      · rw [toldNF_event_other _ _ _ _ _ _ (by omega), transNF_event]; exact hlt li h
+      rw [toldNF_event_other _ _ _ _ _ _ (by omega)]
+      exact hrest2 li (by omega)
+    have hsub' : ∀ li, (toldNF li (.event c.id pos old x.cur :: x.trace)).Sublist
+        (transNF (.event c.id pos old x.cur :: x.trace)) := by
+      intro li
+      by_cases h : pos = li
+      · subst h
+        rw [toldNF_event_same, transNF_event, hrest1]
+        exact (hrest2 pos (Nat.le_refl _)).cons_cons _
+      · rw [toldNF_event_other _ _ _ _ _ _ h, transNF_event]; exact hsub li
+    have hfirst' : toldNF 0 (.event c.id pos old x.cur :: x.trace)
+        = transNF (.event c.id pos old x.cur :: x.trace) := by
+      by_cases h : pos = 0
       · subst h
         rw [toldNF_event_same, transNF_event]
-        exact (hge li (Nat.le_refl _) (by omega)).symm
-    have hgt : ∀ li, pos < li → li < cfg.listeners.length →
-        transNF (.event c.id pos old x.cur :: x.trace)
-          = (old, x.cur) :: toldNF li (.event c.id pos old x.cur :: x.trace) := by
-      intro li h1 h2
-      rw [toldNF_event_other _ _ _ _ _ _ (by omega), transNF_event]
-      exact hge li (by omega) h2
+        exact (hfirst0 rfl (by omega)).symm
+      · rw [toldNF_event_other _ _ _ _ _ _ h, transNF_event]; exact hfirst (by omega)
+    have hq' : x.cuts = 0 →
+        (∀ li, li ≤ pos → toldNF li (.event c.id pos old x.cur :: x.trace)
+          = transNF (.event c.id pos old x.cur :: x.trace)) ∧
+        (∀ li, pos < li → li < cfg.listeners.length →
+          transNF (.event c.id pos old x.cur :: x.trace)
+            = (old, x.cur) :: toldNF li (.event c.id pos old x.cur :: x.trace)) := by
+      intro hc
+      obtain ⟨hlt, hge⟩ := hq hc
+      refine ⟨?_, ?_⟩
+      · intro li hli
+        rcases Nat.lt_or_eq_of_le hli with h | h
+        · rw [toldNF_event_other _ _ _ _ _ _ (by omega), transNF_event]; exact hlt li h
+        · subst h
+          rw [toldNF_event_same, transNF_event]
+          exact (hge li (Nat.le_refl _) (by omega)).symm
+      · intro li h1 h2
+        rw [toldNF_event_other _ _ _ _ _ _ (by omega), transNF_event]
+        exact hge li (by omega) h2
     unfold notifyFrom
     dsimp only
     split
-    · refine ⟨hev', htr', ?_, ?_, ?_, ?_, ?_⟩
+    · refine ⟨hev', htr', ?_, ?_, ?_, ?_, ?_, hsub', fun _ => hfirst', ?_⟩
       · simpa [phaseOf] using Shape.event c.id pos old x.cur hsh
       · intro p hp hn
         simp only [Option.some.injEq] at hp
         subst hp
         simp at hn
       · simpa using hch
-      · intro h li _
+      · intro _ h li _
         have := h _ rfl
         simp at this
       · intro p hp _
         simp only [Option.some.injEq] at hp
         subst hp
-        exact ⟨by dsimp only; omega, hedge, hle, hgt⟩
+        refine ⟨by dsimp only; omega, hedge, ?_, hq'⟩
+        obtain ⟨r, hr1, hr2⟩ := hrest'
+        exact ⟨r, hr1, fun li hli => hr2 li (by dsimp only at hli; omega)⟩
+      · intro p hp ha
+        simp only [Option.some.injEq] at hp
+        subst hp
+        simp at ha
     · refine ih (pos + 1) { x with trace := .event c.id pos old x.cur :: x.trace } (by omega) hev' htr'
-        (Shape.event c.id pos old x.cur hsh) hedge (by simpa using hch) ?_ ?_
-      · intro li hli; exact hle li (by omega)
-      · intro li h1 h2; exact hgt li (by omega) h2
+        (Shape.event c.id pos old x.cur hsh) hedge (by simpa using hch) hrest' hsub' (fun _ => hfirst')
+        (by intro h; omega) ?_
+      intro hc
+      obtain ⟨hle, hgt⟩ := hq' hc
+      exact ⟨fun li hli => hle li (by omega), fun li h1 h2 => hgt li (by omega) h2⟩
 
 theorem runEffs_inv (cfg : Cfg) (s0 : St) (c : Call) (t : St) (effs : List Eff) :
     ∀ (force : Bool) (x : XState), EventsOk cfg.dir x.trace → TransOk cfg.dir x.trace →
       Shape (.running c.id) x.trace → edge cfg.dir x.cur t = true →
       ChainNF s0 x.cur (transNF x.trace) →
-      (∀ li, li < cfg.listeners.length → toldNF li x.trace = transNF x.trace) →
+      (x.cuts = 0 → ∀ li, li < cfg.listeners.length → toldNF li x.trace = transNF x.trace) →
+      (∀ li, (toldNF li x.trace).Sublist (transNF x.trace)) →
+      (0 < cfg.listeners.length → toldNF 0 x.trace = transNF x.trace) →
       Inv cfg s0 (runEffs cfg c t effs force x) := by
   induction effs with
   | nil =>
-    intro force x hev htr hsh hedge hch hq
+    intro force x hev htr hsh hedge hch hq hsub hfirst
     unfold runEffs
     apply notifyFrom_inv cfg s0 c x.cur cfg.listeners 0 _ (by simp)
-    · intro id li a b hmem
-      simp only [List.mem_cons] at hmem
-      rcases hmem with h | h
-      · cases h
-      · exact hev id li a b h
-    · intro id a b hmem
-      simp only [List.mem_cons] at hmem
-      rcases hmem with h | h
-      · cases h; exact hedge
-      · exact htr id a b h
+    · exact hev.cons (by intro _ _ _ _ h; cases h)
+    · exact htr.cons (by intro _ _ _ h; cases h; exact hedge)
     · exact Shape.trans c.id x.cur t hsh
     · exact hedge
     · show ChainNF s0 t ((x.cur, t) :: transNF x.trace)
       exact ⟨rfl, hch⟩
-    · intro li hli; omega
-    · intro li _ hli
-      simp only [transNF_trans, toldNF_trans, hq li hli]
+    · exact ⟨transNF x.trace, rfl, fun li _ => by simpa using hsub li⟩
+    · intro li
+      simpa using (hsub li).cons (x.cur, t)
+    · intro h; omega
+    · intro _ h0
+      simp only [transNF_trans, toldNF_trans, hfirst h0]
+    · intro hc
+      refine ⟨fun li hli => by omega, ?_⟩
+      intro li _ hli
+      simp only [transNF_trans, toldNF_trans, hq hc li hli]
   | cons e es ih =>
-    intro force x hev htr hsh hedge hch hq
+    intro force x hev htr hsh hedge hch hq hsub hfirst
     unfold runEffs
     split
-    · refine ⟨hev, htr, ?_, ?_, hch, fun _ => hq, ?_⟩
+    · refine ⟨hev, htr, ?_, ?_, hch, fun hc _ => hq hc, ?_, hsub, hfirst, ?_⟩
       · simpa [phaseOf] using hsh
       · intro p hp _
         simp only [Option.some.injEq] at hp
@@ -299,53 +404,46 @@ theorem runEffs_inv (cfg : Cfg) (s0 : St) (c : Call) (t : St) (effs : List Eff) 
         simp only [Option.some.injEq] at hp
         subst hp
         simp at hn
+      · intro p hp ha
+        simp only [Option.some.injEq] at hp
+        subst hp
+        simp at ha
     · apply ih
-      · intro id li a b hmem
-        simp only [List.mem_cons] at hmem
-        rcases hmem with h | h
-        · cases h
-        · exact hev id li a b h
-      · intro id a b hmem
-        simp only [List.mem_cons] at hmem
-        rcases hmem with h | h
-        · cases h
-        · exact htr id a b h
+      · exact hev.cons (by intro _ _ _ _ h; cases h)
+      · exact htr.cons (by intro _ _ _ h; cases h)
       · exact Shape.eff c.id e hsh
       · exact hedge
       · simpa using hch
-      · intro li hli; simpa using hq li hli
+      · intro hc li hli; simpa using hq hc li hli
+      · intro li; simpa using hsub li
+      · intro h0; simpa using hfirst h0
 
 theorem Inv.quiet_of_free {cfg : Cfg} {s0 : St} {x : XState} (hinv : Inv cfg s0 x)
-    (hfree : x.holder = none) :
+    (hfree : x.holder = none) (hc : x.cuts = 0) :
     ∀ li, li < cfg.listeners.length → toldNF li x.trace = transNF x.trace :=
-  hinv.quiet (by intro p hp; simp [hfree] at hp)
+  hinv.quiet hc (by intro p hp; simp [hfree] at hp)
 
 theorem grant_inv (hts : TableSound) (cfg : Cfg) (s0 : St) (hm : cfg.mode = .current) (c : Call)
     (x : XState) (hinv : Inv cfg s0 x) (hfree : x.holder = none) : Inv cfg s0 (grant cfg c x) := by
   have hsh : Shape .idle x.trace := by simpa [hfree, phaseOf] using hinv.shape
   unfold grant
   split
-  · refine ⟨?_, ?_, ?_, ?_, ?_, ?_, ?_⟩
-    · intro id li a b hmem
-      simp only [List.mem_cons] at hmem
-      rcases hmem with h | h
-      · cases h
-      · exact hinv.events id li a b h
-    · intro id a b hmem
-      simp only [List.mem_cons] at hmem
-      rcases hmem with h | h
-      · cases h
-      · exact hinv.transOk id a b h
+  · refine ⟨?_, ?_, ?_, ?_, ?_, ?_, ?_, ?_, ?_, ?_⟩
+    · exact hinv.events.cons (by intro _ _ _ _ h; cases h)
+    · exact hinv.transOk.cons (by intro _ _ _ h; cases h)
     · simpa [hfree, phaseOf] using Shape.refused c.id hsh
     · intro p hp; simp [hfree] at hp
     · simpa using hinv.chain
-    · intro _ li hli; simpa using hinv.quiet_of_free hfree li hli
+    · intro hc _ li hli; simpa using hinv.quiet_of_free hfree hc li hli
+    · intro p hp; simp [hfree] at hp
+    · intro li; simpa using hinv.sub li
+    · intro h0; simpa using hinv.first h0
     · intro p hp; simp [hfree] at hp
   · next t effs heq =>
     have hd : dispatchOn cfg x c = x.cur := by simp [dispatchOn, hm]
     rw [hd] at heq
     exact runEffs_inv cfg s0 c t effs false x hinv.events hinv.transOk (Shape.start c.id hsh)
-      (hts _ _ _ _ _ heq) hinv.chain (hinv.quiet_of_free hfree)
+      (hts _ _ _ _ _ heq) hinv.chain (fun hc => hinv.quiet_of_free hfree hc) hinv.sub hinv.first
 
 theorem drain_inv (hts : TableSound) (cfg : Cfg) (s0 : St) (hm : cfg.mode = .current)
     (cs : List Call) :
@@ -353,14 +451,14 @@ theorem drain_inv (hts : TableSound) (cfg : Cfg) (s0 : St) (hm : cfg.mode = .cur
   induction cs with
   | nil =>
     intro x hinv _
-    exact ⟨hinv.events, hinv.transOk, hinv.shape, hinv.pending, hinv.chain, hinv.quiet, hinv.telling⟩
+    exact hinv.congr rfl rfl rfl rfl
   | cons c cs ih =>
     intro x hinv hfree
     have hg := grant_inv hts cfg s0 hm c x hinv hfree
     unfold drain
     dsimp only
     split
-    · exact ⟨hg.events, hg.transOk, hg.shape, hg.pending, hg.chain, hg.quiet, hg.telling⟩
+    · exact hg.congr rfl rfl rfl rfl
     · next hnone => exact ih _ hg hnone
 
 theorem arrive_inv (hts : TableSound) (cfg : Cfg) (s0 : St) (hm : cfg.mode = .current) (c : Call)
@@ -368,56 +466,157 @@ theorem arrive_inv (hts : TableSound) (cfg : Cfg) (s0 : St) (hm : cfg.mode = .cu
   unfold arrive
   dsimp only
   split
-  · next p hp =>
-    exact ⟨hinv.events, hinv.transOk, hinv.shape, hinv.pending, hinv.chain, hinv.quiet, hinv.telling⟩
+  · next p hp => exact hinv.congr rfl rfl rfl rfl
   · next hnone => exact drain_inv hts cfg s0 hm _ x hinv hnone
+
+/-- the tasks an abandoned (or just cancelled) lock holder waited for have ended: its block is closed -/
+theorem tasksEnded_inv (cfg : Cfg) (s0 : St) (x : XState) (p : Pending) (hinv : Inv cfg s0 x)
+    (hp : x.holder = some p) (hn : p.notified = false) : Inv cfg s0 (tasksEnded p x) := by
+  have hsh : Shape (.running p.call.id) x.trace := by simpa [hp, phaseOf, hn] using hinv.shape
+  have hq : x.cuts = 0 → ∀ li, li < cfg.listeners.length → toldNF li x.trace = transNF x.trace :=
+    fun hc => hinv.quiet hc (by intro q hq; rw [hp] at hq; cases hq; exact hn)
+  unfold tasksEnded
+  refine ⟨?_, ?_, ?_, ?_, ?_, ?_, ?_, ?_, ?_, ?_⟩
+  · exact (hinv.events.cons (by intro _ _ _ _ h; cases h)).cons (by intro _ _ _ _ h; cases h)
+  · exact (hinv.transOk.cons (by intro _ _ _ h; cases h)).cons (by intro _ _ _ h; cases h)
+  · simpa [phaseOf] using Shape.cancelledRunning p.call.id (Shape.eff p.call.id .cancelTasks hsh)
+  · intro q hq; simp at hq
+  · simpa using hinv.chain
+  · intro hc _ li hli; simpa using hq hc li hli
+  · intro q hq; simp at hq
+  · intro li; simpa using hinv.sub li
+  · intro h0; simpa using hinv.first h0
+  · intro q hq; simp at hq
+
+/-- the caller of the suspended lock holder is cancelled -/
+theorem abandon_inv (cfg : Cfg) (s0 : St) (x : XState) (p : Pending) (hinv : Inv cfg s0 x)
+    (hp : x.holder = some p) : Inv cfg s0 (abandon cfg p x) := by
+  unfold abandon
+  split
+  · next hn =>
+    -- inside listener `p.pos`
+    have hsh : Shape (.notified p.call.id) x.trace := by simpa [hp, phaseOf, hn] using hinv.shape
+    obtain ⟨hpos, _, _, hcond⟩ := hinv.telling p hp hn
+    refine ⟨?_, ?_, ?_, ?_, ?_, ?_, ?_, ?_, ?_, ?_⟩
+    · exact hinv.events.cons (by intro _ _ _ _ h; cases h)
+    · exact hinv.transOk.cons (by intro _ _ _ h; cases h)
+    · simpa [phaseOf] using Shape.cancelledNotified p.call.id hsh
+    · intro q hq; simp at hq
+    · simpa using hinv.chain
+    · intro hc _ li hli
+      dsimp only at hc
+      split at hc
+      · omega
+      · next hlast =>
+        simpa using (hcond hc).1 li (by omega)
+    · intro q hq; simp at hq
+    · intro li; simpa using hinv.sub li
+    · intro h0; simpa using hinv.first h0
+    · intro q hq; simp at hq
+  · next hn =>
+    have hn' : p.notified = false := by simpa using hn
+    have hsh : Shape (.running p.call.id) x.trace := by simpa [hp, phaseOf, hn'] using hinv.shape
+    have hq : x.cuts = 0 → ∀ li, li < cfg.listeners.length → toldNF li x.trace = transNF x.trace :=
+      fun hc => hinv.quiet hc (by intro q hq; rw [hp] at hq; cases hq; exact hn')
+    have plain : Inv cfg s0 { x with holder := none, trace := .cancelled p.call.id :: x.trace } := by
+      refine ⟨?_, ?_, ?_, ?_, ?_, ?_, ?_, ?_, ?_, ?_⟩
+      · exact hinv.events.cons (by intro _ _ _ _ h; cases h)
+      · exact hinv.transOk.cons (by intro _ _ _ h; cases h)
+      · simpa [phaseOf] using Shape.cancelledRunning p.call.id hsh
+      · intro q hq; simp at hq
+      · simpa using hinv.chain
+      · intro hc _ li hli; simpa using hq hc li hli
+      · intro q hq; simp at hq
+      · intro li; simpa using hinv.sub li
+      · intro h0; simpa using hinv.first h0
+      · intro q hq; simp at hq
+    split
+    · split
+      · -- stays the lock holder, abandoned
+        refine ⟨hinv.events, hinv.transOk, ?_, ?_, hinv.chain, fun hc _ => hq hc, ?_, hinv.sub,
+          hinv.first, ?_⟩
+        · simpa [phaseOf, hn'] using hsh
+        · intro q hq' _
+          simp only [Option.some.injEq] at hq'
+          subst hq'
+          exact hinv.pending p hp hn'
+        · intro q hq' hqn
+          simp only [Option.some.injEq] at hq'
+          subst hq'
+          simp [hn'] at hqn
+        · intro q hq' _
+          simp only [Option.some.injEq] at hq'
+          subst hq'
+          exact hn'
+      · exact tasksEnded_inv cfg s0 x p hinv hp hn'
+    · exact plain
 
 theorem step_inv (hts : TableSound) (cfg : Cfg) (s0 : St) (hm : cfg.mode = .current) (x : XState)
     (op : XOp) (hinv : Inv cfg s0 x) : Inv cfg s0 (step cfg x op) := by
-  have same : ∀ y : XState, y.cur = x.cur → y.holder = x.holder → y.trace = x.trace → Inv cfg s0 y := by
-    intro y h1 h2 h3
-    obtain ⟨a, b, c, d, e, f, g⟩ := hinv
-    exact ⟨h3 ▸ a, h3 ▸ b, h2 ▸ h3 ▸ c, h1 ▸ h2 ▸ d, h1 ▸ h3 ▸ e, h2 ▸ h3 ▸ f, h1 ▸ h2 ▸ h3 ▸ g⟩
   cases op with
-  | create c => exact same _ rfl rfl rfl
+  | create c => exact hinv.congr rfl rfl rfl rfl
   | start id =>
     simp only [step]
     split
     · exact hinv
-    · exact arrive_inv hts cfg s0 hm _ _ (same _ rfl rfl rfl)
+    · exact arrive_inv hts cfg s0 hm _ _ (hinv.congr rfl rfl rfl rfl)
   | call c => exact arrive_inv hts cfg s0 hm _ _ hinv
   | resume =>
     simp only [step]
     split
     · exact hinv
     · next p hp =>
-      have hr : Inv cfg s0 (if p.notified then
+      have hr : Inv cfg s0 (if p.abandoned then tasksEnded p x
+          else if p.notified then
             notifyFrom p.call p.old (cfg.listeners.drop (p.pos + 1)) (p.pos + 1) x
           else runEffs cfg p.call p.target p.rest true x) := by
         split
-        · next hn =>
-          have hsh : Shape (.notified p.call.id) x.trace := by simpa [hp, phaseOf, hn] using hinv.shape
-          obtain ⟨hpos, hedge, hle, hgt⟩ := hinv.telling p hp hn
-          apply notifyFrom_inv cfg s0 p.call p.old _ (p.pos + 1) x
-            (by rw [List.length_drop]; omega) hinv.events hinv.transOk hsh hedge hinv.chain
-          · intro li hli; exact hle li (by omega)
-          · intro li h1 h2; exact hgt li (by omega) h2
-        · next hn =>
-          have hn' : p.notified = false := by simpa using hn
-          have hsh : Shape (.running p.call.id) x.trace := by simpa [hp, phaseOf, hn'] using hinv.shape
-          refine runEffs_inv cfg s0 p.call p.target p.rest true x hinv.events hinv.transOk hsh
-            (hinv.pending p hp hn') hinv.chain (hinv.quiet ?_)
-          intro q hq
-          rw [hp] at hq
-          simp only [Option.some.injEq] at hq
-          subst hq
-          exact hn'
+        · next ha => exact tasksEnded_inv cfg s0 x p hinv hp (hinv.abandonedRunning p hp ha)
+        · split
+          · next hn =>
+            have hsh : Shape (.notified p.call.id) x.trace := by simpa [hp, phaseOf, hn] using hinv.shape
+            obtain ⟨hpos, hedge, ⟨rest, hr1, hr2⟩, hcond⟩ := hinv.telling p hp hn
+            apply notifyFrom_inv cfg s0 p.call p.old _ (p.pos + 1) x
+              (by rw [List.length_drop]; omega) hinv.events hinv.transOk hsh hedge hinv.chain
+            · exact ⟨rest, hr1, fun li hli => hr2 li (by omega)⟩
+            · exact hinv.sub
+            · intro _; exact hinv.first (by omega)
+            · intro h; omega
+            · intro hc
+              obtain ⟨hle, hgt⟩ := hcond hc
+              exact ⟨fun li hli => hle li (by omega), fun li h1 h2 => hgt li (by omega) h2⟩
+          · next hn =>
+            have hn' : p.notified = false := by simpa using hn
+            have hsh : Shape (.running p.call.id) x.trace := by simpa [hp, phaseOf, hn'] using hinv.shape
+            refine runEffs_inv cfg s0 p.call p.target p.rest true x hinv.events hinv.transOk hsh
+              (hinv.pending p hp hn') hinv.chain (fun hc => hinv.quiet hc ?_) hinv.sub hinv.first
+            intro q hq
+            rw [hp] at hq
+            simp only [Option.some.injEq] at hq
+            subst hq
+            exact hn'
       split
       · exact hr
       · next hnone => exact drain_inv hts cfg s0 hm _ _ hr hnone
-  | spawn => exact same _ rfl rfl rfl
-  | setFile => exact same _ rfl rfl rfl
-  | tick => exact same _ rfl rfl rfl
+  | spawn => exact hinv.congr rfl rfl rfl rfl
+  | setFile => exact hinv.congr rfl rfl rfl rfl
+  | tick => exact hinv.congr rfl rfl rfl rfl
+  | cancelCaller id =>
+    simp only [step]
+    split
+    · exact hinv
+    · next p hp =>
+      split
+      · split
+        · exact hinv
+        · have ha := abandon_inv cfg s0 x p hinv hp
+          split
+          · exact ha
+          · next hnone => exact drain_inv hts cfg s0 hm _ _ ha hnone
+      · split
+        · exact hinv.push_cancelled id rfl rfl rfl rfl
+        · exact hinv
+  | reload => exact hinv
 
 theorem run_inv (hts : TableSound) (cfg : Cfg) (s0 : St) (hm : cfg.mode = .current) (ops : List XOp) :
     ∀ x : XState, Inv cfg s0 x → Inv cfg s0 (run cfg x ops) := by
@@ -428,7 +627,153 @@ theorem run_inv (hts : TableSound) (cfg : Cfg) (s0 : St) (hm : cfg.mode = .curre
 theorem init_inv (cfg : Cfg) (s : St) (f : Fields) : Inv cfg s (init s f) :=
   ⟨by intro id li a b h; simp [init] at h, by intro id a b h; simp [init] at h,
    by simpa [init, phaseOf] using Shape.nil, by intro p h; simp [init] at h,
-   by simp [init, ChainNF], by intro _ li _; simp [init], by intro p h; simp [init] at h⟩
+   by simp [init, ChainNF], by intro _ _ li _; simp [init], by intro p h; simp [init] at h,
+   by intro li; simp [init], by intro _; simp [init], by intro p h; simp [init] at h⟩
+
+/-! ### Cancellations cut listener loops short only when they happen -/
+
+/-- `cuts` only grows, and only `cancelCaller` makes it grow -/
+def XOp.isCancel : XOp → Bool
+  | .cancelCaller _ => true
+  | _ => false
+
+theorem notifyFrom_cuts (c : Call) (old : St) :
+    ∀ (gs : List Bool) (pos : Nat) (x : XState), (notifyFrom c old gs pos x).cuts = x.cuts := by
+  intro gs
+  induction gs with
+  | nil => intro pos x; rfl
+  | cons g gs ih =>
+    intro pos x
+    unfold notifyFrom
+    dsimp only
+    split
+    · rfl
+    · rw [ih]
+
+theorem runEffs_cuts (cfg : Cfg) (c : Call) (t : St) (effs : List Eff) :
+    ∀ (force : Bool) (x : XState), (runEffs cfg c t effs force x).cuts = x.cuts := by
+  induction effs with
+  | nil => intro force x; unfold runEffs; rw [notifyFrom_cuts]
+  | cons e es ih =>
+    intro force x
+    unfold runEffs
+    split
+    · rfl
+    · rw [ih]
+
+theorem grant_cuts (cfg : Cfg) (c : Call) (x : XState) : (grant cfg c x).cuts = x.cuts := by
+  unfold grant
+  split
+  · rfl
+  · rw [runEffs_cuts]
+
+theorem drain_cuts (cfg : Cfg) (cs : List Call) : ∀ x : XState, (drain cfg cs x).cuts = x.cuts := by
+  induction cs with
+  | nil => intro x; rfl
+  | cons c cs ih =>
+    intro x
+    unfold drain
+    dsimp only
+    split
+    · exact grant_cuts cfg c x
+    · rw [ih, grant_cuts]
+
+theorem arrive_cuts (cfg : Cfg) (c : Call) (x : XState) : (arrive cfg c x).cuts = x.cuts := by
+  unfold arrive
+  dsimp only
+  split
+  · rfl
+  · rw [drain_cuts]
+
+theorem step_cuts_of_not_cancel (cfg : Cfg) (x : XState) (op : XOp) (h : op.isCancel = false) :
+    (step cfg x op).cuts = x.cuts := by
+  cases op with
+  | create c => rfl
+  | start id =>
+    simp only [step]
+    split
+    · rfl
+    · rw [arrive_cuts]
+  | call c => simp only [step]; rw [arrive_cuts]
+  | resume =>
+    simp only [step]
+    split
+    · rfl
+    · next p hp =>
+      have hr : (if p.abandoned then tasksEnded p x
+          else if p.notified then
+            notifyFrom p.call p.old (cfg.listeners.drop (p.pos + 1)) (p.pos + 1) x
+          else runEffs cfg p.call p.target p.rest true x).cuts = x.cuts := by
+        split
+        · rfl
+        · split
+          · rw [notifyFrom_cuts]
+          · rw [runEffs_cuts]
+      split
+      · exact hr
+      · rw [drain_cuts, hr]
+  | spawn => rfl
+  | setFile => rfl
+  | tick => rfl
+  | cancelCaller id => simp [XOp.isCancel] at h
+  | reload => rfl
+
+theorem run_cuts_of_no_cancel (cfg : Cfg) (ops : List XOp) (h : ops.all (fun o => !o.isCancel) = true) :
+    ∀ x : XState, (run cfg x ops).cuts = x.cuts := by
+  induction ops with
+  | nil => intro x; rfl
+  | cons op ops ih =>
+    intro x
+    simp only [List.all_cons, Bool.and_eq_true, Bool.not_eq_eq_eq_not, Bool.not_true] at h
+    show (run cfg (step cfg x op) ops).cuts = x.cuts
+    rw [ih h.2, step_cuts_of_not_cancel cfg x op h.1]
+
+/-! ### With no listener registered nobody is told anything -/
+
+theorem noListeners_grant (cfg : Cfg) (hl : cfg.listeners = []) (c : Call) (x : XState) :
+    ∀ id li a b, Item.event id li a b ∈ (grant cfg c x).trace → Item.event id li a b ∈ x.trace := by
+  have hrun : ∀ (effs : List Eff) (t : St) (force : Bool) (y : XState) id li a b,
+      Item.event id li a b ∈ (runEffs cfg c t effs force y).trace → Item.event id li a b ∈ y.trace := by
+    intro effs
+    induction effs with
+    | nil =>
+      intro t force y id li a b h
+      unfold runEffs at h
+      rw [hl] at h
+      simpa [notifyFrom] using h
+    | cons e es ih =>
+      intro t force y id li a b h
+      unfold runEffs at h
+      split at h
+      · exact h
+      · simpa using ih _ _ _ id li a b h
+  intro id li a b h
+  unfold grant at h
+  split at h
+  · simpa using h
+  · exact hrun _ _ _ _ id li a b h
+
+theorem noListeners_arrive_init (cfg : Cfg) (hl : cfg.listeners = []) (c : Call) (s : St) (f : Fields) :
+    ∀ id li a b, Item.event id li a b ∉ (arrive cfg c (init s f)).trace := by
+  intro id li a b h
+  have hg := noListeners_grant cfg hl
+  unfold arrive at h
+  simp only [init, List.nil_append] at h
+  unfold drain at h
+  dsimp only at h
+  split at h
+  · have := hg _ _ id li a b h
+    simp at this
+  · unfold drain at h
+    have := hg _ _ id li a b h
+    simp at this
+
+/-- a transfer read from the cache starts a new life: whatever was stored, the result is a transfer in
+some state with some fields, lock free, nothing pending, empty trace -/
+theorem load_is_init (cfg : Cfg) (stored : St) (f : Fields) (whole : Bool) :
+    ∃ s' f', load cfg stored f whole = init s' f' := by
+  unfold load
+  cases stored <;> exact ⟨_, _, rfl⟩
 
 /-! ### From the newest-first bookkeeping to the observation functions of the model -/
 
